@@ -230,7 +230,7 @@ STATS = {"queries": 0, "solver_s": 0.0, "unsat": 0, "sat": 0, "unknown": 0, "twi
 
 
 def decide(pairs, pc, *, extra=(), pin=None, timeout_ms=30000, twin=True, box=None, monotone=False,
-           dump=None):
+           dump=None, claims=()):
     """Is there a point inside the domain, on the path ``pc``, where some pair differs?
 
     pairs: [(node_a, node_b)]; pc / extra: [(node, rel)]; pin: {var: float} pins input variables;
@@ -243,6 +243,8 @@ def decide(pairs, pc, *, extra=(), pin=None, timeout_ms=30000, twin=True, box=No
         if a is b:
             continue
         goals.append(lw.neq(a, b))
+    for d, rel in claims:      # inequality claims  d rel 0  that must hold: the goal is their negation
+        goals.append(z3.Not(lw.rel(d, rel)))
     assumptions = [lw.rel(d, rel) for d, rel in pc] + [lw.rel(d, rel) for d, rel in extra]
     assumptions += lw.domain()
     if box is not None:
